@@ -55,11 +55,16 @@ type Kernel struct {
 	// probes
 	lockWaits   int
 	holdsForced int
+
+	// distinct schedule points seen per task (discovery for hold-until plans)
+	seen  [maxTasks][maxSeen]string
+	nseen [maxTasks]int
 }
 
 const (
 	maxTasks = 40
 	maxRec   = 1 << 14
+	maxSeen  = 40
 )
 
 // NewKernel must be called inside the synctest bubble (its channels belong to
@@ -191,6 +196,17 @@ func (k *Kernel) YieldHook(point string) {
 func (k *Kernel) park(task int, point string) {
 	raceDisable()
 	k.point[task] = point
+	found := false
+	for i := 0; i < k.nseen[task]; i++ {
+		if k.seen[task][i] == point {
+			found = true
+			break
+		}
+	}
+	if !found && k.nseen[task] < maxSeen {
+		k.seen[task][k.nseen[task]] = point
+		k.nseen[task]++
+	}
 	k.parked[task] = true
 	<-k.wake[task]
 	killed := k.killed
@@ -432,6 +448,19 @@ func (k *Kernel) ParkedPoints() []string {
 	for t := 0; t < k.ntasks; t++ {
 		if k.parked[t] {
 			out = append(out, k.name[t]+"@"+k.point[t])
+		}
+	}
+	return out
+}
+
+// SeenPoints returns the distinct schedule points each task parked at.
+//
+//go:norace
+func (k *Kernel) SeenPoints() [][]string {
+	out := make([][]string, k.ntasks)
+	for t := 0; t < k.ntasks; t++ {
+		for i := 0; i < k.nseen[t]; i++ {
+			out[t] = append(out[t], k.seen[t][i])
 		}
 	}
 	return out
